@@ -122,3 +122,24 @@ Example C16_example_disk_filter :
   /\ base_name "tmpl/zz_test.go" = "zz_test.go"
   /\ parse_exit_code 256 = None /\ parse_exit_code 7 = Some 7%Z.
 Proof. vm_compute. auto. Qed.
+
+(* ---- round 6: -v ----
+   The debug lines of -v carry the prefix "<tab>debug: "; dropping them leaves exactly the output (and the
+   found-issues flag, hence the exit status) of the run without -v — provided no diagnostic line starts with that
+   prefix, which holds for every location that starts with '/', "./" or '$' (C16_diag_line_not_debug). *)
+Theorem C16_verbose_invariant : forall cfg pkgs,
+  no_debug (flat_map (fun p => all_lines cfg (snd p)) pkgs) ->
+  strip_debug (snd (run_packages_verbose true cfg pkgs (false, [])))
+  = snd (run_packages_verbose false cfg pkgs (false, []))
+  /\ fst (run_packages_verbose true cfg pkgs (false, [])) = fst (run_packages_verbose false cfg pkgs (false, [])).
+Proof. exact verbose_invariant. Qed.
+Print Assumptions C16_verbose_invariant.
+Theorem C16_diag_line_not_debug : forall loc c t a r,
+  loc = String a r -> a <> ascii_of_N 9 -> is_debug_line (fmt_line loc c t) = false.
+Proof. exact diag_line_not_debug. Qed.
+Print Assumptions C16_diag_line_not_debug.
+Example C16_example_verbose :
+  strip_debug (snd (run_packages_verbose true {| check_tests := true; check_generated := false; exit_code := 1 |}
+     [("p", [{| fname := "a.go"; fgroups := []; fwarn := [("c", [("./a.go:1:1", "t")])] |}])] (false, [])))
+  = ["./a.go:1:1: c: t"].
+Proof. vm_compute. reflexivity. Qed.
